@@ -118,9 +118,7 @@ def ddBinSpec (op : String) (ahi alo bhi blo rhi rlo : Nat) : DDJudge :=
   match specialExpect op ka kb with
   | some k =>
     let ok := kindMatches k rhi
-    let cls := if op == "div" && isInf64 bhi && isFin64 ahi then "dd.div.inf_divisor"
-      else if op == "div" && isInf64 ahi && mag64 bhi = 0 then "dd.div.zero_divisor_sign" else ""
-    { guarded := false, ok := ok, reason := "infinities/NaNs propagate like doubles", cls := cls, tag := "special" }
+    { guarded := false, ok := ok, reason := "infinities/NaNs propagate like doubles", cls := "", tag := "special" }
   | none =>
     if !(isFin64 ahi && isFin64 alo && isFin64 bhi && isFin64 blo) then { guarded := false, ok := true, tag := "unguarded-nonfinite-tail" }
     else if !(halfUlpOK 53 11 ahi alo && halfUlpOK 53 11 bhi blo) then { guarded := false, ok := true, tag := "unguarded-operand-not-normalised" }
@@ -173,7 +171,7 @@ def ddUnSpec (op : String) (ahi alo rhi rlo : Nat) : DDJudge :=
   | .inf s =>
     if op == "sqrt" then
       { guarded := false, ok := if s then isNaN64 rhi else kindMatches (.inf false) rhi, reason := "sqrt(+inf) = +inf like doubles",
-        cls := if s then "" else "dd.sqrt.inf", tag := "special" }
+        cls := "", tag := "special" }
     else { guarded := false, ok := true, tag := "model-only" }
   | _ =>
     if !(isFin64 alo) then { guarded := false, ok := true, tag := "unguarded-nonfinite-tail" }
@@ -360,11 +358,11 @@ def ddconvHandler : Handler := fun lhs rhs => do
       let z : Int := if v < 2 ^ 63 then (v : Int) else (v : Int) - (2 ^ 64 : Int)
       let ok := isFin64 hi && isFin64 lo && val64 hi + val64 lo == (z : Rat)
       return { model := outDD (ofInt64 b64 z), specOk := ok, reason := "a 64-bit integer fits the 106-bit significand: conversion must be exact",
-               cls := if z.natAbs ≥ 2 ^ 53 then "dd.from_int64.head_only" else "", tag := "from_i64" }
+               cls := "", tag := "from_i64" }
     | "from_u64", [v], [hi, lo] =>
       let ok := isFin64 hi && isFin64 lo && val64 hi + val64 lo == ((v : Int) : Rat)
       return { model := outDD (ofInt64 b64 (v : Int)), specOk := ok, reason := "a 64-bit integer fits the 106-bit significand: conversion must be exact",
-               cls := if v ≥ 2 ^ 53 then "dd.from_int64.head_only" else "", tag := "from_u64" }
+               cls := "", tag := "from_u64" }
     | "from_double", [a], [hi, lo] =>
       let ok := hex16 (toBits64 (ofBits64 a)) == hex16 hi && mag64 lo = 0
       return { model := outDD (ofF (ofBits64 a)), specOk := ok, reason := "dd(double) is (d, 0)", tag := "from_double" }
@@ -377,14 +375,14 @@ def ddconvHandler : Handler := fun lhs rhs => do
       let guarded := isFin64 hi && isFin64 lo && halfUlpOK 53 11 hi lo && absR (val64 hi + val64 lo) < pow2 63
       let t := truncZ (val64 hi + val64 lo)
       return { model := hex16I m, specOk := !guarded || hex16I t == hex16 r, reason := s!"truncation toward zero gives {t}",
-               cls := "dd.to_int64.limbwise_truncation", tag := "to_i64", trivial := !guarded }
+               cls := "", tag := "to_i64" ++ (if isIntegral b64 (ofBits64 hi) && mag64 lo != 0 then "/integer-head" else ""), trivial := !guarded }
     | "to_u64", [hi, lo], [r] =>
-      let m := toInt64 b64 (mkDD hi lo)
+      let m := toUInt64 b64 (mkDD hi lo)
       let x := val64 hi + val64 lo
-      let guarded := isFin64 hi && isFin64 lo && halfUlpOK 53 11 hi lo && x ≥ 0 && x < pow2 63
       let t := truncZ x
-      return { model := hex16I m, specOk := !guarded || hex16I t == hex16 r, reason := s!"truncation toward zero gives {t}",
-               cls := "dd.to_int64.limbwise_truncation", tag := "to_u64", trivial := !guarded }
+      let guarded := isFin64 hi && isFin64 lo && halfUlpOK 53 11 hi lo && t ≥ 0 && x < pow2 64
+      return { model := hex16 m, specOk := !guarded || hex16I t == hex16 r, reason := s!"truncation toward zero gives {t}",
+               cls := "", tag := "to_u64" ++ (if x ≥ pow2 63 then "/ge2^63" else "") ++ (if isIntegral b64 (ofBits64 hi) && mag64 lo != 0 then "/integer-head" else ""), trivial := !guarded }
     | _, _, _ => throw s!"unknown op/arity {op}"
   | _ => throw "arity"
 
